@@ -16,7 +16,7 @@ from ..lib import UnmatchedInstancePair, make_matcher
 ID = "C03"
 LEVEL = "model_checking"
 RULE = (
-    "all contingency tables CT(2,2,2), CT(3,2,1), CT(2,3,1) (thorough: + CT(3,3,1), CT(2,2,3)) x {IoU,Dice}, all pairs of G1(5,2) x 27 refs and "
+    "16 / 17 / 33 reference instances (thorough 14..69) with 1-2 overlapping predictions each x {IoU,Dice,ASSD}; all contingency tables CT(2,2,2), CT(3,2,1), CT(2,3,1) (thorough: + CT(3,3,1), CT(2,2,3)) x {IoU,Dice}, all pairs of G1(5,2) x 27 refs and "
     "G2(2,3,2) x 16 refs (thorough: G1(6,2) x 81, G2(2,3,2) x 64) x ASSD; x every threshold class (exact hits, gaps, beyond ends) x allow_many_to_one in {F,T}. "
     "non-trivial = at least two eligible candidate pairs compete for one partner at some threshold; distinct by overlap structure"
 )
@@ -36,6 +36,8 @@ def blocks(tier):
         n = sc.ct_count(P, R, c)
         for lo, hi in sc.ranges(n, 250):
             B.append(("ct", P, R, c, lo, hi))
+    for n in ((16, 17, 33) if tier == "quick" else tuple(range(14, 70))):
+        B.append(("many", n))
     geo = [((5,), 2, 27), ((2, 3), 2, 16)] if tier == "quick" else [((6,), 2, 81), ((2, 3), 2, 64), ((2, 2, 2), 2, 16)]
     for shape, k, nref in geo:
         n = sc.grid_count(shape, k)
@@ -51,7 +53,29 @@ def ref_indices(n, nref):
     return sorted({int(i * step + step / 2) % n for i in range(nref)} | {n - 1})
 
 
+def many_arrays(n):
+    """n reference runs of 4 voxels, predictions shifted by 0/1/2 voxels (IoU 1, 3/5, 1/3) plus, for every third, a second small
+    prediction on the uncovered rest: more candidate pairs than worker processes"""
+    ref = np.zeros(7 * n + 2, dtype=np.uint16)
+    pred = np.zeros(7 * n + 2, dtype=np.uint16)
+    lab = 1
+    for k in range(n):
+        ref[7 * k + 1 : 7 * k + 5] = k + 1
+        lo = 7 * k + 1 + (k % 3)
+        pred[lo : lo + 4] = lab
+        lab += 1
+        if k % 3 == 2:
+            pred[7 * k + 1 : 7 * k + 3] = lab
+            lab += 1
+    return pred, ref
+
+
 def run_block(block, acc):
+    if block[0] == "many":
+        p, r = many_arrays(block[1])
+        for metric in ("IOU", "DSC", "ASSD"):
+            run_case({"kind": "arr", "pred": sc.arr_to_case(p), "ref": sc.arr_to_case(r), "metric": metric, "many": block[1]}, acc)
+        return
     if block[0] == "ct":
         _, P, R, c, lo, hi = block
         for i in range(lo, hi):
@@ -174,7 +198,7 @@ def thresholds_for(rp, metric, acc=None, pairs=None, shape=None):
 def run_case(case, acc):
     pred, ref = arrays_of(case)
     metric = case["metric"]
-    acc.case(case["kind"], case.get("P"), case.get("R"), case.get("c"), case.get("i"), case.get("shape"), case.get("pi"), case.get("ri"), metric)
+    acc.case(case["kind"], case.get("P"), case.get("R"), case.get("c"), case.get("i"), case.get("shape"), case.get("pi"), case.get("ri"), case.get("many"), metric)
     pv, rv = rm.voxsets(pred), rm.voxsets(ref)
     if not pv or not rv:
         acc.count("skipped_empty_side")  # the pipeline never calls the matcher then (zero-instance shortcut)
